@@ -45,9 +45,10 @@ struct SeqOutcome {
     deviations: usize,
 }
 
-fn run_sequence(api: &'static SetApi, seq: &[Op], script: &[Answer], fallback_sk: &dyn SkOps, fallback_skc: &SkCtx) -> SeqOutcome {
+fn run_sequence(api: &'static SetApi, seq: &[Op], script: &[Answer], err_code: u32, fallback_sk: &dyn SkOps, fallback_skc: &SkCtx) -> SeqOutcome {
     let p = api.p;
     let mut rng = ScriptRng::new(script.to_vec());
+    rng.err_code = err_code;
     let mut out = SeqOutcome { violations: Vec::new(), ops_run: 0, deviations: script.iter().filter(|a| !matches!(a, Answer::Ok(_))).count() };
     let mut cur_sk: Option<(Box<dyn SkOps>, SkCtx)> = None;
     let msg = b"c12-message";
@@ -185,10 +186,21 @@ pub fn c12(cx: &Ctx, rep: &mut Report) {
             }
         }
         // deviation-bounded order: 0 deviations first
-        jobs.sort_by_key(|(_, s)| s.iter().filter(|a| !matches!(a, Answer::Ok(_))).count());
-        let results: Vec<SeqOutcome> = jobs.par_iter().map(|(si, script)| run_sequence(api, &seqs[*si], script, fb_sk.as_ref(), &fb_skc)).collect();
+        jobs.sort_by_key(|(_, s): &(usize, Vec<Answer>)| s.iter().filter(|a| !matches!(a, Answer::Ok(_))).count());
+        // every script that contains a failure is run once per error code of the alphabet (a retry-on-EINTR/EAGAIN slip only
+        // shows for that code); fault-free scripts once
+        let codes: [u32; 4] = [rand_core::Error::CUSTOM_START + 2, 4, 11, 5];
+        let jobs: Vec<(usize, Vec<Answer>, u32)> = jobs
+            .into_iter()
+            .flat_map(|(si, script)| {
+                let faulty = script.iter().any(|a| !matches!(a, Answer::Ok(_)));
+                let n = if faulty { codes.len() } else { 1 };
+                (0..n).map(move |c| (si, script.clone(), codes[c])).collect::<Vec<_>>()
+            })
+            .collect();
+        let results: Vec<SeqOutcome> = jobs.par_iter().map(|(si, script, code)| run_sequence(api, &seqs[*si], script, *code, fb_sk.as_ref(), &fb_skc)).collect();
         let mut by_dev = [0u64; 8];
-        for ((si, script), r) in jobs.iter().zip(results.iter()) {
+        for ((si, script, code), r) in jobs.iter().zip(results.iter()) {
             rep.count(&format!("mldsa{}:fault_runs", p.id), 1);
             by_dev[r.deviations.min(7)] += 1;
             if r.deviations > 0 {
@@ -198,8 +210,8 @@ pub fn c12(cx: &Ctx, rep: &mut Report) {
             for (key, what) in &r.violations {
                 rep.violate(Violation {
                     key: format!("c12:{key}"),
-                    summary: format!("ML-DSA-{} sequence {:?} with RNG script {:?}: {what}", p.id, seqs[*si], script.iter().map(short).collect::<Vec<_>>()),
-                    replay: json!({"engine":"faults","set":p.id,"sequence":seqs[*si].iter().map(|o| format!("{o:?}")).collect::<Vec<_>>(),"script":script.iter().map(short).collect::<Vec<_>>()}),
+                    summary: format!("ML-DSA-{} sequence {:?} with RNG script {:?} (error code {code}): {what}", p.id, seqs[*si], script.iter().map(short).collect::<Vec<_>>()),
+                    replay: json!({"engine":"faults","set":p.id,"sequence":seqs[*si].iter().map(|o| format!("{o:?}")).collect::<Vec<_>>(),"script":script.iter().map(short).collect::<Vec<_>>(),"error_code":code}),
                 });
             }
         }
@@ -358,8 +370,7 @@ fn exercise_sk(api: &'static SetApi, rep: &mut Report, name: &str, skb: &[u8]) {
 pub fn c13(cx: &Ctx, rep: &mut Report) {
     rep.rule = "checked build (debug-assertions + overflow-checks), every call under catch_unwind: product of public entry points {PublicKey: try_from_bytes, into_bytes, clone, verify, hash_verify x3, _internal_verify; PrivateKey: try_from_bytes, into_bytes, clone, get_public_key, try_sign_with_rng, try_hash_sign_with_rng x3, _internal_sign; keygen x2} with hostile shapes: extremal / one-hot public keys, private keys that are accepted but were never generated (extremal s, t0 at both range ends, inconsistent t0/tr/rho/K, every out-of-range s-field value), signature shapes = raw z patterns x E3 hint strings x c_tilde patterns + FIPS-204-valid forged signatures with extremal response vectors + the sparse-coset overflow witnesses, message lengths up to 2^20 and context lengths up to 65536. Oracle: no unwind. Every case is hostile (non-trivial) by construction.".into();
     if !cfg!(debug_assertions) {
-        rep.machinery("C13 must run in the checked build".into());
-        return;
+        rep.assumptions.push("this run is the release-semantics repetition: panics that do not depend on debug assertions / overflow checks, and termination of every call".into());
     }
     for api in APIS {
         let p = api.p;
@@ -477,6 +488,28 @@ pub fn c13(cx: &Ctx, rep: &mut Report) {
             }
         }
         rep.extra.insert(format!("largest_verify_inv_ntt_input_over_q_mldsa{}", p.id), json!(peak as f64 / refmodel::Q as f64));
+        // accepted-but-hostile private key that drives the rejection loop itself: every t0 coefficient at maximal magnitude with
+        // pseudo-random signs makes the hint weight exceed omega on almost every attempt (median ~3000 attempts for ML-DSA-44).
+        // The committed witness message needs more than 65536/l attempts with the reference signer, i.e. the 16-bit ExpandMask
+        // counter is exhausted. The call must still return (a signature or an error), without panic, in bounded time.
+        if p.id == 44 {
+            let hb = refmodel::keygen_internal(p, &[0x21u8; 32]);
+            let skb = hostile_t0_key(p, &hb);
+            if let Ok(Ok(sk)) = (api.sk_from_bytes)(&skb) {
+                for (m, what) in [("kappa-overflow-2", "counter exhausted (reference needs > 16384 attempts)"), ("kappa-overflow-0", "long loop"), ("kappa-overflow-1", "long loop")] {
+                    rep.count("sk:sign(rejection-loop exhaustion)", 1);
+                    rep.nontrivial_case(fnv(m.as_bytes()));
+                    let mut rng = ScriptRng::ok(&[0u8; 32]);
+                    let t = std::time::Instant::now();
+                    let r = sk.sign(Mode::Pure, &mut rng, m.as_bytes(), b"");
+                    rep.outcome(match &r { Ok(Ok(_)) => "hostile_key_sign_ok", Ok(Err(_)) => "hostile_key_sign_err", Err(_) => "hostile_key_sign_panic" }, 1);
+                    if let Err(pn) = r {
+                        report_panic(rep, p.id, &format!("signing '{m}' with the accepted hostile-t0 key ({what}, {:.1}s)", t.elapsed().as_secs_f64()), &pn,
+                            json!({"engine":"api","set":p.id,"ops":[{"op":"sk_exercise","sk":hex(&skb),"call":"sign","msg":m}]}));
+                    }
+                }
+            }
+        }
         // signing with long messages / every context length class through an honest key
         if let Ok(Ok(sk)) = (api.sk_from_bytes)(&base.sk) {
             for (m, c, mode) in [(vec![0u8; 1 << 20], vec![], Mode::Pure), (vec![0u8; 1 << 20], alpha::ctx(255), Mode::Sha256), (vec![], vec![0u8; 65_536], Mode::Pure), (vec![], alpha::ctx(256), Mode::Shake128)] {
@@ -497,3 +530,50 @@ pub fn c13(cx: &Ctx, rep: &mut Report) {
 
 #[allow(dead_code)]
 fn unused(_: &dyn PkOps) {}
+
+
+/// the accepted ML-DSA-44 private key whose every t0 coefficient has maximal magnitude with pseudo-random signs
+pub fn hostile_t0_key(p: &'static refmodel::Params, base: &refmodel::KeyGenOut) -> Vec<u8> {
+    let bits = refmodel::shake256(&[b"hostile-t0-signs"], p.k * 32);
+    let t0: Vec<Poly> = (0..p.k).map(|k| core::array::from_fn(|n| if (bits[k * 32 + n / 8] >> (n % 8)) & 1 == 1 { 4096 } else { -4095 })).collect();
+    refmodel::sk_encode(p, &base.rho, &base.key, &base.tr, &base.s1, &base.s2, &t0)
+}
+
+/// diagnostic: how many rejection-loop iterations does the reference need with the hostile-t0 key?
+pub fn kappa_search(n: usize) -> i32 {
+    let p = &refmodel::P44;
+    let base = refmodel::keygen_internal(p, &[0x21u8; 32]);
+    let skb = hostile_t0_key(p, &base);
+    let skc = SkCtx::new(p, &skb);
+    let res: Vec<(usize, usize)> = (0..n)
+        .into_par_iter()
+        .map(|i| {
+            let m = format!("kappa-overflow-{i}").into_bytes();
+            let mp = refmodel::format_message(Mode::Pure, &m, b"").unwrap();
+            (i, refmodel::sign_internal_ctx(&skc, &mp, &[0u8; 32], &refmodel::SignOpts { max_iters: 17000, ..Default::default() }).1.iterations)
+        })
+        .collect();
+    let mut its: Vec<usize> = res.iter().map(|r| r.1).collect();
+    its.sort_unstable();
+    println!("iterations: min {} median {} max {}", its[0], its[its.len() / 2], its[its.len() - 1]);
+    for (i, it) in res.iter().filter(|r| r.1 >= 16384) {
+        println!("message kappa-overflow-{i}: >= {it} iterations (kappa would pass 65535)");
+    }
+    0
+}
+
+pub fn kappa_witness(msg: &str) -> i32 {
+    let p = &refmodel::P44;
+    let base = refmodel::keygen_internal(p, &[0x21u8; 32]);
+    let skb = hostile_t0_key(p, &base);
+    let api = crate::subject::api(44);
+    let Ok(Ok(sk)) = (api.sk_from_bytes)(&skb) else {
+        println!("key rejected");
+        return 2;
+    };
+    let t = std::time::Instant::now();
+    let mut rng = ScriptRng::ok(&[0u8; 32]);
+    let r = sk.sign(Mode::Pure, &mut rng, msg.as_bytes(), b"");
+    println!("subject sign on '{msg}': {:?} after {:.1}s", r.map(|x| x.map(|s| format!("signature {}..", &hex(&s)[..16]))), t.elapsed().as_secs_f64());
+    0
+}
